@@ -1,7 +1,7 @@
 //! C02 — compiled automaton == grammar language, labels included (product model checking).
 
 use crate::ast::{print_grammar, G};
-use crate::auto::{equivalent, ProductStats};
+use crate::auto::{equivalent_l, ProductStats};
 use crate::json::J;
 use crate::pipe::{self, Outcome, Shell, SHELLS};
 use crate::refsem;
@@ -46,9 +46,9 @@ pub fn check_one(g: &G, text: &str, shell: Shell, c: &pipe::Compiled) -> Result<
     let mut total = ProductStats::default();
     for (which, dfa) in [("raw", &c.raw), ("minimized", &c.min)] {
         let mut keys = Keys::new(strict);
-        let a = keys.ref_nfa(&r);
-        let b = keys.impl_nfa(dfa, dfa);
-        match equivalent(&a, &b) {
+        let a = keys.ref_lnfa(&r);
+        let b = keys.impl_lnfa(dfa, dfa);
+        match equivalent_l(&a, &b) {
             Ok(st) => {
                 total.states += st.states;
                 total.transitions += st.transitions;
